@@ -36,11 +36,8 @@ import (
 // out, so they are generated and everything about them is a verdict except the used margin-right
 // (and hence the literal seven-term sum), which is counted and reported while the defect is open.
 var openDefects = map[string]bool{
-	"overconstrained-margin-right":          true, // §10.3.3: used margin-right not recomputed (ltr)
-	"collapsed-through-into-parent-top":     true, // §8.3.1: margins of a collapsed-through first child vs the parent's top margin
-	"empty-bfc-root-box":                    true, // §8.3.1: an empty BFC root must not collapse through
-	"collapsed-through-negative-margin":     true, // §10.6.3: empty box gets a positive height from a negative collapsed margin
-	"percent-height-against-clamped-height": true, // §10.5/§10.7: child percentages against the unclamped height
+	"overconstrained-margin-right":      true, // §10.3.3: used margin-right not recomputed (ltr)
+	"collapsed-through-into-parent-top": true, // §8.3.1: margins of a collapsed-through first child vs the parent's top margin
 }
 
 func init() {
